@@ -46,6 +46,11 @@ def make_events(rng, keys, relay, n):
         elif r < 0.16:
             tags.append(["x", ["nested", 1]])
             label = "nested-tag"
+        elif r < 0.22:
+            # short in characters, long in UTF-8 bytes: around LMDB's 511-byte key limit (name 1 + value + 38 bytes of suffix)
+            tags.append(["t", rng.choice(["\u6f22" * n for n in (150, 155, 156, 157, 158, 160, 170)] + ["\U0001f600" * n for n in (117, 118, 119, 130)]
+                                         + ["\u00e9" * n for n in (234, 235, 236, 237, 240)])])
+            label = "long-utf8-tag"
         ev = relay.signed_event(sk, kind=kind, content="c%d" % i, tags=tags, created_at=T0 + rng.choice([0, 1, 2, 3, 50]))
         if r > 0.88 and r <= 0.93:
             ev["sig"] = "00" * 64
@@ -136,7 +141,7 @@ def run_session(report, drv, backend, rng, keys, tag):
             # --- the property ---------------------------------------------------------------------
             ephemeral = 20000 <= ev["kind"] < 30000
             is_dup = ev["id"] in before or ev["id"] in acked and ephemeral
-            authentic = label in ("valid", "resubmission", "long-tag", "huge-int-in-tag", "nested-tag", "float-created_at")
+            authentic = label in ("valid", "resubmission", "long-tag", "long-utf8-tag", "huge-int-in-tag", "nested-tag", "float-created_at")
             if ok:
                 acked.add(ev["id"])
                 superseded = False
@@ -194,7 +199,8 @@ def run(report, tier, seed):
     report.coverage["rule"] = (
         "sessions of 4-12 EVENT messages through the real start_client on both backends, an observer connection watching "
         "broadcasts: validly signed regular / replaceable / parameterised / ephemeral / kind-5 events, resubmissions, bad "
-        "signatures, tampered content, events that LMDB cannot store (600-byte tag value, 2**70 in a tag, float created_at), "
+        "signatures, tampered content, events that LMDB cannot store (600-byte tag value, non-ASCII tag values around the 511-byte "
+        "key limit, 2**70 in a tag, float created_at), "
         "nested-array tag values; non-trivial = the session contains something other than plain valid events")
     report.assumptions += ["quiescence: the loop is settled and the LMDB writer drained after every message"]
     try:
